@@ -431,6 +431,44 @@ def expr_walk(e):
             stack.extend(x[1])
 
 
+def expr_subst_args(e, actuals):
+    """replace ('arg', k) by actuals[k-1] (inter-procedural substitution)"""
+    if not isinstance(e, tuple):
+        return e
+    tag = e[0]
+    r = lambda x: expr_subst_args(x, actuals)
+    if tag == 'arg':
+        k = e[1] - 1
+        return actuals[k] if 0 <= k < len(actuals) else e
+    if tag in ('const', 'undef', 'cycle', 'unknown'):
+        return e
+    if tag == 'proj':
+        return ('proj', r(e[1]), e[2])
+    if tag in ('ref', 'rawptr'):
+        return (tag, e[1], r(e[2]))
+    if tag == 'bin':
+        return ('bin', e[1], r(e[2]), r(e[3]))
+    if tag == 'un':
+        return ('un', e[1], r(e[2]))
+    if tag == 'cast':
+        return ('cast', e[1], r(e[2]), e[3])
+    if tag == 'discr':
+        return ('discr', r(e[1]), e[2])
+    if tag == 'agg':
+        return ('agg', e[1], e[2], tuple(r(x) for x in e[3]))
+    if tag == 'closure':
+        return ('closure', e[1], tuple(r(x) for x in e[2]))
+    if tag == 'repeat':
+        return ('repeat', r(e[1]))
+    if tag == 'call':
+        return ('call', e[1], tuple(r(x) for x in e[2]), e[3])
+    if tag == 'icall':
+        return ('icall', r(e[1]), tuple(r(x) for x in e[2]), e[3])
+    if tag == 'phi':
+        return ('phi', tuple(r(x) for x in e[1]))
+    return e
+
+
 def expr_calls(e):
     return [x for x in expr_walk(e) if isinstance(x, tuple) and x[0] == 'call']
 
